@@ -331,7 +331,7 @@ def z3(prog, rep):
                           function=f.name, construct="BN_free(%s)" % v)
     if total_tainted < 5:
         raise cdb.AnalysisBroken("Z3: only %d secret-dependent BIGNUMs found in crypto_dh.c (5 confirmed): taint sources (parameter 'priv', crypto_entropy_read buffers) are gone" % total_tainted)
-    rep.require_min("Z3-clearfree", 10)
+    rep.require_min("Z3-clearfree", 4)     # a clean-up ladder merged into one exit halves the count
 
 
 # --------------------------------------------------------------------------
